@@ -175,7 +175,10 @@ func (in *c05Inst) Menu(nd mc.Node, depth int) []wOp {
 		m = append(m, wOp{Kind: "process", IDs: []uint64{1, 2}}, wOp{Kind: "process", IDs: []uint64{1, 2}, Var: "+change"}, wOp{Kind: "approve", IDs: []uint64{1, 2}})
 	}
 	if n.wd[1].Status != "" {
-		m = append(m, wOp{Kind: "process", IDs: []uint64{1, 1}})
+		m = append(m, wOp{Kind: "process", IDs: []uint64{1, 1}}, wOp{Kind: "approve", IDs: []uint64{1, 1}})
+	}
+	if n.wd[1].Status != "" && n.wd[2].Status != "" {
+		m = append(m, wOp{Kind: "approve", IDs: []uint64{1, 2, 1}})
 	}
 	pids := []uint64{}
 	for pid := range n.batches {
@@ -482,10 +485,13 @@ func (in *c05Inst) Step(nd mc.Node, op wOp, path []wOp, silent bool) mc.Node {
 			next.batches[op.Pid].Open = false
 		}
 	case "approve":
+		listed := map[uint64]bool{}
 		for _, id := range op.IDs {
-			if pre.wd[id].Status != "canceling" {
+			// an id listed twice would be refunded twice: such an approval must fail as a whole
+			if pre.wd[id].Status != "canceling" || listed[id] {
 				expectOK = false
 			}
+			listed[id] = true
 		}
 		rel, _ := in.relayerState(bctx)
 		gotErr = in.try(bctx, &bitcointypes.MsgApproveCancellation{Proposer: rel.Proposer, Id: op.IDs}, true)
@@ -667,7 +673,7 @@ func runC05(r *mc.Run) {
 		r.SetBudget(150 * 1e9)
 	}
 	r.Bounds["depth_actions"] = depth
-	r.Rule = "DFS over interleavings of user requests (withdraw with good/undecodable address, fee update lower/higher, cancel) and relayer actions (process [1],[2],[1,2],[1,1], +change; replace; finalize original/each replacement/unknown txid; approve [id],[1,2]; hand-over) over ids 1..3 with a 2-member quorum; every step compared with a reference life-cycle model; in every distinct state all ill-formed variants of the enabled actions (25 kinds: script, amount, fee rate, outputs, change key, quorum, payload, fee not higher, identical tx, forged/unvoted/other-header/aliased-index proofs, sender) are applied on throw-away branches and must fail without changing the store"
+	r.Rule = "DFS over interleavings of user requests (withdraw with good/undecodable address, fee update lower/higher, cancel) and relayer actions (process [1],[2],[1,2],[1,1], +change; replace; finalize original/each replacement/unknown txid; approve [id],[1,2],[1,1],[1,2,1]; hand-over) over ids 1..3 with a 2-member quorum; every step compared with a reference life-cycle model; in every distinct state all ill-formed variants of the enabled actions (25 kinds: script, amount, fee rate, outputs, change key, quorum, payload, fee not higher, identical tx, forged/unvoted/other-header/aliased-index proofs, sender) are applied on throw-away branches and must fail without changing the store"
 	r.Assumptions = []string{"withdrawal ids are unique and issued in order by the bridge contract", "voted block hashes for finalisation are injected into BlockHashes", "fee rates in the alphabet are exactly representable (float comparison in the code is exact below 2^40)"}
 	ill := &sync.Map{}
 	s := &mc.Search[wOp]{Run: r, Depth: depth, NewInstance: func() (mc.Instance[wOp], error) { return newC05Inst(r, ill) }}
